@@ -6,6 +6,18 @@ Specs are JSON lists: ["inc"], ["modk", 3], ["failIf", 3, 1] ...
 """
 
 
+
+class FalsyError(Exception):
+    """an exception whose instances are falsy (a collection-like error object with no entries)"""
+    def __len__(self):
+        return 0
+
+
+EXC_KINDS = {"ValueError": ValueError, "KeyError": KeyError, "StopIteration": StopIteration, "FalsyError": FalsyError,
+             "OSError": OSError}
+# the exception type the failing catalogue functions raise; a case selects it with case["exc"] (graphlib.Run sets and restores it)
+FAIL_EXC = [ValueError]
+
 def _int(x):
     if type(x) is not int:
         raise TypeError("int expected")
@@ -76,7 +88,7 @@ def make_fn(spec):
         def fail_if(x):
             _int(x)
             if k == 0 or x % k == r:
-                raise ValueError("failIf")
+                raise FAIL_EXC[0]("failIf")
             return x
         return fail_if
     if name == "isEven":
@@ -98,7 +110,7 @@ def make_fn(spec):
         def fail_pred(x):
             _int(x)
             if k == 0 or x % k == r:
-                raise ValueError("failPred")
+                raise FAIL_EXC[0]("failPred")
             return int(x % 2 == 0)
         return fail_pred
     raise KeyError(name)
@@ -120,7 +132,7 @@ def make_fn2(spec):
         def fail_add(s, x):
             _int(s), _int(x)
             if k == 0 or x % k == r:
-                raise ValueError("failAdd")
+                raise FAIL_EXC[0]("failAdd")
             return s + x
         return fail_add
     if name == "snoc":
